@@ -13,6 +13,13 @@ the order the code issues them over the whole step run):
   close-src             close / __exit__ of the source handle
   replace:<tmp>><dst>   fs.os.replace(src, dst)
   remove:<tmp>          fs.os.remove(path)
+  sys:<audit event>     ANY other os.* / shutil.* call the implementation makes on a path inside the
+                        scratch directory while the step runs (os.chmod, shutil.copymode, os.utime,
+                        os.link, os.rename, os.truncate, ...): discovered at run time through a
+                        Python audit hook, not from a list, so a call newly inserted between the end
+                        of writing and the rename is a fault point too.  Not traced: read-only
+                        events (listdir / scandir / walk / xattr reads) and mkdir of a directory
+                        that already exists.  The hook raises Injected(k) to make that call fail.
 
 A fault {k: 'raise'} makes primitive k raise `Injected(k)` INSTEAD of acting (a failing close
 still releases the descriptor, as CPython does).  {k: 'crash'} stops the observation at k (the
@@ -33,6 +40,53 @@ STEPS = {
     'fileformattoml': ('pypyr.steps.fileformattoml', 'fileFormatToml'),
 }
 STREAM = ('fileformat', 'filereplace')
+
+
+_ACTIVE = None          # the Ctl of the step run in progress (audit hook target)
+_HOOKED = False
+READ_ONLY_EVENTS = ('os.listdir', 'os.scandir', 'os.walk', 'os.fwalk', 'os.getxattr', 'os.listxattr')
+
+
+def _audit(event, args):
+    ctl = _ACTIVE
+    if ctl is None or ctl.mute or ctl.crashed:
+        return
+    if not (event.startswith('os.') or event.startswith('shutil.')) or event in READ_ONLY_EVENTS:
+        return
+    inside = []
+    for a in args:
+        if isinstance(a, bytes):
+            try:
+                a = a.decode()
+            except UnicodeDecodeError:
+                continue
+        if isinstance(a, os.PathLike):
+            a = os.fspath(a)
+        if isinstance(a, str) and a:
+            r = os.path.abspath(a)
+            if r == ctl.root or r.startswith(ctl.root + os.sep) \
+                    or os.path.realpath(a).startswith(ctl.root + os.sep):
+                inside.append(a)
+    if not inside:
+        return
+    if event == 'os.mkdir' and os.path.isdir(inside[0]):
+        return                   # mkdir(exist_ok=True) on an existing directory: no effect
+    ctl.mute += 1                # the snapshot below walks the directory
+    try:
+        k = ctl.n
+        bad = ctl.prim('sys:' + event)
+    finally:
+        ctl.mute -= 1
+    if bad:
+        raise Injected(k)
+
+
+def ensure_hook():
+    global _HOOKED
+    if not _HOOKED:
+        import sys
+        sys.addaudithook(_audit)
+        _HOOKED = True
 
 
 class Injected(OSError):
@@ -81,6 +135,7 @@ class Ctl:
         self.record_chunks = record_chunks
         self.kill = kill
         self.hit = []             # [k, tag] of every fault that fired
+        self.mute = 0             # >0: calls made by the harness itself / by a wrapped primitive
 
     # -- names
     def rel(self, p):
@@ -99,7 +154,11 @@ class Ctl:
         return relname
 
     def snap(self):
-        return sorted([self.canon(n), b] for n, b in snapshot(self.root))
+        self.mute += 1
+        try:
+            return sorted([self.canon(n), b] for n, b in snapshot(self.root))
+        finally:
+            self.mute -= 1
 
     # -- the primitive boundary
     def prim(self, tag):
@@ -203,14 +262,22 @@ class OsShim:
         tag = f'replace:{ctl.canon(ctl.rel(src))}>{ctl.rel(dst)}'
         if ctl.prim(tag):
             raise Injected(k)
-        return os.replace(src, dst, **kw)
+        ctl.mute += 1
+        try:
+            return os.replace(src, dst, **kw)
+        finally:
+            ctl.mute -= 1
 
     def remove(self, path, **kw):
         ctl = self._ctl
         k = ctl.n
         if ctl.prim(f'remove:{ctl.canon(ctl.rel(path))}'):
             raise Injected(k)
-        return os.remove(path, **kw)
+        ctl.mute += 1
+        try:
+            return os.remove(path, **kw)
+        finally:
+            ctl.mute -= 1
 
     unlink = remove
 
@@ -238,17 +305,25 @@ def installed(ctl):
         reld = ctl.rel(d) if d else '<default>'
         if ctl.prim('mktemp:' + (reld + '/' if reld else '')):
             raise Injected(k)
-        t = real_ntf(*a, **kw)
+        ctl.mute += 1
+        try:
+            t = real_ntf(*a, **kw)
+        finally:
+            ctl.mute -= 1
         ctl.temps.append(t.name)
         t.file = FileProxy(t.file, ctl, 'tmp')
         return t
 
+    global _ACTIVE
+    ensure_hook()
     fs.open = h_open
     fs.NamedTemporaryFile = h_ntf
     fs.os = OsShim(ctl)
+    _ACTIVE = ctl
     try:
         yield
     finally:
+        _ACTIVE = None
         fs.NamedTemporaryFile = real_ntf
         fs.os = old_os
         if had_open:
